@@ -400,11 +400,15 @@ func (d *DNSFilter) refreshFiltersIntl(block, allow, force bool) (int, bool) {
 		toUpd = append(toUpd, toUpdAl...)
 		isNetErr = isNetErr || isNetErrAl
 	}
-	if isNetErr {
+	if isNetErr && updNum == 0 {
+		// Every list of at least one kind failed to update and nothing has
+		// changed.
 		return 0, true
 	}
 
 	if updNum != 0 {
+		// Some lists have been replaced on disk, so the engines must be rebuilt
+		// even if all lists of the other kind failed to update.
 		d.EnableFilters(false)
 
 		for i := range lists {
